@@ -162,6 +162,22 @@ def do_op(w, op, T):
         os_ = [T[t]() for t in op[1]]
         toks = ["E", str(len(os_))] + sum((w.obj_tokens(o) for o in os_), [])
         return toks, guarded(lambda: m.extend(os_))
+    if kind in ("extendbad", "setavpsbad"):
+        # a fault in the middle of a multi-element operation: valid AVPs, then something that is not an AVP; the library
+        # error is caught by the caller. What was appended before the fault stays (model: the operation on the prefix).
+        os_ = [T[t]() for t in op[1]]
+        bad = ["x", None, 5][op[2] % 3]
+        k = min(op[2], len(os_))
+        arg = os_[:k] + [bad] + os_[k:]
+        pre = os_[:k]
+        if kind == "extendbad":
+            toks = (["E", str(len(pre))] + sum((w.obj_tokens(o) for o in pre), [])) if pre else ["R"]
+            return toks, guarded(lambda: m.extend(arg))
+        toks = ["S", str(len(pre))] + sum((w.obj_tokens(o) for o in pre), [])
+
+        def f():
+            m.avps = arg
+        return toks, guarded(f)
     if kind == "pop":
         b, s = op[1]
         return ["P", b, str(s)], guarded(lambda: m.pop(join_key(b, s)))
@@ -241,6 +257,7 @@ def op_alphabet(small):
         ops = [o for o in ops if o[0] not in ("extend", "bulk") and o != ("append", "S")]
     else:
         ops += [("alias", 0), ("alias", 1)]
+        ops += [("extendbad", ("h", "v"), 2), ("extendbad", ("u", "h"), 1), ("setavpsbad", ("h", "u"), 2), ("setavpsbad", ("v", "h"), 1)]
     return ops
 
 
